@@ -114,9 +114,10 @@ func init() {
 	// C13: one shared read-only model used from many goroutines at once
 	register("shared", func(req json.RawMessage) (any, error) {
 		var q struct {
-			M       any `json:"m"`
-			Workers int `json:"workers"`
-			Rounds  int `json:"rounds"`
+			M       any  `json:"m"`
+			Workers int  `json:"workers"`
+			Rounds  int  `json:"rounds"`
+			NoWG    bool `json:"nowg"` // leave the weighted graph out (models whose verdict depends on map order: K-WG-cycles)
 		}
 		if err := json.Unmarshal(req, &q); err != nil {
 			return nil, err
@@ -131,7 +132,9 @@ func init() {
 			t2, e2 := transformer.TransformJSONProtoToDSL(m, transformer.WithIncludeSourceInformation(true))
 			s := fmt.Sprintf("%v|%q|%v|%q|", e1, t1, e2, t2)
 			wg, e3 := graph.NewWeightedAuthorizationModelGraphBuilder().Build(m)
-			if e3 != nil {
+			if q.NoWG {
+				s += "wskip" // built (for the race detector and the frame) but not compared
+			} else if e3 != nil {
 				s += "werr" // the verdict only: the error class may depend on the traversal order
 			} else {
 				b, _ := json.Marshal(encWGraph(wg, m))
